@@ -166,7 +166,10 @@ TR_JOIN_DESCSTR = [", ", "; ", ",\n", " ", "\n"]                # desc_STR: sect
 
 _NUM = st.one_of(st.integers(1, 999), st.sampled_from([1, 2, 3, 9, 10, 11, 99, 100, 101, 111, 154]))
 _SECLIST = L.rendered_list("sec", 36, 3)
-_SEC = st.fixed_dictionaries({"lst": _SECLIST, "block": _BLOCK, "conn": st.sampled_from(CONN), "sep": st.sampled_from(SEPS)})
+# how the colon is written after a section list in the section-first layouts
+COLONS = [": ", ": ", ": ", " : ", ":\n", ":", " :"]
+_SEC = st.fixed_dictionaries({"lst": _SECLIST, "block": _BLOCK, "conn": st.sampled_from(CONN), "sep": st.sampled_from(SEPS),
+                              "colon": st.sampled_from(COLONS)})
 
 
 @functools.lru_cache(maxsize=None)
@@ -220,7 +223,7 @@ def render_sec(s):
     return L.render(s["lst"]["items"], s["lst"]["r"])
 
 
-def render(d, colon=": "):
+def render(d, colon=None):
     """colon: what joins a section list to its block in the section-first layouts (': ' or, colon-less, ' ')."""
     lay = d["layout"]
     out = ""
@@ -233,7 +236,7 @@ def render(d, colon=": "):
             for si, s in enumerate(g["secs"]):
                 if si:
                     out += g["secs"][si - 1]["sep"]
-                out += render_sec(s) + colon + s["block"]
+                out += render_sec(s) + (colon if colon is not None else s.get("colon", ": ")) + s["block"]
         elif lay == "TR_desc_S":
             out += tr + g["tr_sep"]
             for si, s in enumerate(g["secs"]):
@@ -250,7 +253,7 @@ def render(d, colon=": "):
             for si, s in enumerate(g["secs"]):
                 if si:
                     out += g["secs"][si - 1]["sep"]
-                out += render_sec(s) + colon + s["block"]
+                out += render_sec(s) + (colon if colon is not None else s.get("colon", ": ")) + s["block"]
             out += g["tr_join"] + tr
         else:
             raise ValueError(lay)
